@@ -161,6 +161,24 @@ RES = {
  "C20-G": ("C20", "caught by quick C20 (get:has-mismatch, get:mismatch)", "missed at first: needs an empty value and a caller that grows the returned slice in place; single-client programs now store empty values (4%), and scribbling covers the spare capacity behind a returned value. The first run with both crashed a worker (a simrt bug: the panic value was formatted, through instrumented code, while the scheduler lock was held), reported as TROUBLE, not as a verdict, and fixed"),
  "C20-H": ("C20", "caught by quick C20 (panic:table.(*block).seek, panic:leveldb.(*DB).tCompaction)", "missed at first: see C20-G"),
 
+ # ---- round 5 (variants I, J for ten properties) ----
+ "C04-I": ("C04", "caught by quick C04 (scan:mismatch); it weakens fix 0fb4c47", ""),
+ "C04-J": ("C04", "caught by quick C04 (open-failed); it breaks fix e6e9f07", "missed at first: needs failed commits and then a crash; 8% of C04 cases now let manifest syncs fail for a while (failed, discarded transaction commits) before the crash"),
+ "C05-J": ("C05", "caught by quick C05 (lin:not-linearizable) and quick C01 (get:has-mismatch)", "missed at first by C05 (quick C01 caught it): the concurrent clients never called Has; a quarter of their point reads now do, with a presence-only observation in the linearizability model"),
+ "C07-I": ("C07", "caught by quick C07 (files-residue:extra:table); it breaks fix e6e9f07", "missed at first by the quick tier (the thorough tier found it in 150 s): needs a transaction commit that fails all three attempts while a level-0 compaction is in flight; the failed-commit variant of C07 now produces exactly that half of the time and delays the Discard"),
+ "C07-J": ("C07", "caught by quick C07 (files-residue:fs:extra:table)", "missed at first: the change is in file_storage.go (removal of tables under the legacy .sst name); added the fsrw operation (real scratch directory, live tables partly renamed to .sst, read-write open, rewrite, compact, settle, directory versus manifest, reopen)"),
+ "C08-I": ("C08", "caught by quick C08 (open-failed)", ""),
+ "C08-J": ("C08", "caught by quick C08 (scan:mismatch)", ""),
+ "C09-I": ("C09", "caught by quick C17 (hang: Cache.Close versus Node.unRefExternal under EvictNS/EvictAll); it reverts a third of fix a6e8412. Not reported by quick C09: at DB level it needs BlockCacheEvictRemoved, a table removal and Close within one window, which 40 s did not produce", ""),
+ "C09-J": ("C09", "caught by quick C09 (hang:db_write.go:DB.putRec, DB.Write); it reverts fix 5fe7803 (same change as C10-I and C11-I)", ""),
+ "C10-I": ("C10", "caught by quick C10 (hang:DB.OpenTransaction, hang:DB.putRec); same change as C09-J", ""),
+ "C10-J": ("C10", "caught by quick C10 (hang:db.go:DB.Close)", "missed at first: needs Close while a transaction is open; 30% of the closing clients now open a transaction, write to it and call Close without finishing it"),
+ "C11-I": ("C11", "caught by quick C11 (hang:db_write.go:DB.putRec, hang:DB.OpenTransaction); same change as C09-J", "missed at first by the quick tier (the thorough tier's enumeration found it): 10% of single-client C11 cases now run with manifest failures and a small write buffer, so that transactions and transaction-routed large batches fail to commit"),
+ "C11-J": ("C11", "caught by quick C11 (hang:db.go:DB.Close)", ""),
+ "C18-I": ("C18", "caught by quick C18 (panic:leveldb.(*DB).mpoolPut)", ""),
+ "C18-J": ("C18", "caught by quick C18 (readonly:empty-open-created)", "missed at first: the change is in file_storage.go; the open guards now include a read-only OpenFile of a missing path on the real file system, which must fail and create nothing"),
+ "C19-I": ("C19", "caught by quick C19 (recover:lost-undamaged, get:mismatch)", ""),
+
 }
 os.makedirs("/verif/seeded", exist_ok=True)
 rows = []
@@ -172,6 +190,8 @@ for name, (prop, caught, note) in sorted(RES.items()):
         src = "/tmp/mut/out3/" + name
     if not os.path.exists(src + "/patch.diff"):
         src = "/tmp/mut/out4/" + name
+    if not os.path.exists(src + "/patch.diff"):
+        src = "/tmp/mut/out5/" + name
     if os.path.exists("/verif/seeded/" + name + "/patch.diff") and not os.path.exists(src + "/patch.diff"):
         rows_keep = json.load(open("/verif/seeded/" + name + "/meta.json"))
         rows.append((name, prop, rows_keep.get("result", caught), rows_keep.get("strengthening", note)))
